@@ -331,8 +331,8 @@ class Sensor(ABC):
         azimuth = getAzimuth(slant_range_sez)
         elevation = getElevation(slant_range_sez)
 
-        # Check if the elevation is within sensor bounds
-        if elevation < self.el_mask[0] or elevation > self.el_mask[1]:
+        # Check if the elevation is within sensor bounds (the two limits may be given in either order)
+        if elevation < min(self.el_mask) or elevation > max(self.el_mask):
             return False, Explanation.ELEVATION_MASK
 
         # [NOTE]: Azimuth check requires two versions:
